@@ -135,3 +135,41 @@ class IfThenElseMixedKinds(Contract):
             d["V.selected_number"] = If(c.v(cond) == 1, rn * td == tn * rd, rn * fd == fn_ * rd)
             d["V.inv"] = c.inv(r)
         return d
+
+
+@register
+class IfThenElseBoolVsPlain(Contract):
+    """if_then_else(cond, flag, k) / (cond, k, flag) for a secret boolean flag and ANY plain integer k: the selected
+    number, for both condition values, and no refusal that depends on which branch is selected."""
+    name = "pysnark.branching:if_then_else#bool_vs_plain"
+    vprops = ("C05", "C09")
+    sprops = eprops = ()
+    tprops = ()
+    skip_facets = "TN"
+    guard_relevant = False
+    modules = ("pysnark.runtime", "pysnark.boolean", "pysnark.fixedpoint", "pysnark.branching")
+
+    def configs(self, tier):
+        return [dict(mode="plain", order=o) for o in ("flag_then_plain", "plain_then_flag")]
+
+    def setup(self, c, cfg):
+        apply_mode(c, cfg["mode"], bitlength=4)
+        flag, k = c.operand_bool("flag"), c.public_int("k")
+        t, f = (flag, k) if cfg["order"] == "flag_then_plain" else (k, flag)
+        return c.w.modules["pysnark.branching"].if_then_else, (c.operand_bool("c"), t, f), {}
+
+    def use_stub(self, c, *a):
+        return False
+
+    def raises(self, c, cond, t, f):
+        return []
+
+    def post(self, c, r, cond, t, f):
+        num = lambda o: term(o) if isinstance(o, int) else c.v(o)
+        ok = hasattr(r, "lc") or isinstance(r, int)
+        d = {"V.secret_or_plain_result": ok}
+        if ok:
+            d["V.selected_number"] = Implies(is01(c.v(cond)), Eq(num(r), If(c.v(cond) == 1, num(t), num(f))))
+            if hasattr(r, "lc"):
+                d["V.inv"] = c.inv(r)
+        return d
